@@ -29,7 +29,14 @@ now *observed* by the C17 model checker rather than read off the source. Three o
 repaired defects were pointed out by authors of seeded changes while they read the tree
 (cpukinds allocated count, `hwloc_distances_release_remove` on adopted topologies) or were
 exposed by an input added to catch a seeded change (`chain.xml`, the NO_MEMATTRS
-configuration); each was first reproduced by the strengthened check.
+configuration); each was first reproduced by the strengthened check. Round 5 added three:
+the maintenance steps skipped under NO_DISTANCES / NO_MEMATTRS / NO_CPUKINDS (`1bb0db3`,
+found when those flag variants joined C17's reader topologies), `hwloc_topology_refresh()`
+storing into an adopted read-only mapping (`ad448c7`, pointed out by the author of a seeded
+change, reproduced once refresh() was driven on adopted topologies) and the `dont_merge`
+Group merged away by a restrict (`2859fdb`, a parent/child mix-up in
+`hwloc_filter_levels_keep_structure()`; raised by the C08 clause added at the very end of the
+previous session, seen as an alarm by `vp check`, triaged as a genuine defect).
 
 ### 8.1 Repaired (`fix:` commits, in the order they were found)
 
@@ -72,24 +79,31 @@ ndet = sum(1 for r in rows if 'not detected' not in r[2])
 sec9 = '''## 9. Demonstrating detection
 
 **9.1 Seeded changes from fresh sub-agents.** Realistic property-breaking changes were
-obtained, in three rounds, from sub-agents that were given *only the text of the property*
-and a scratch git worktree of `/repo` (nothing from `/verif`; in the second round also the
-nicknames of the first-round changes, to push them towards other clauses), and were asked
-for a change that compiles, passes the repository's test suite, breaks the property only
-for something specific, with a demonstration. Each change was then **confirmed
+obtained, in five rounds, from sub-agents that were given *only the text of the property*
+and a scratch git worktree of `/repo` (nothing from `/verif`; in rounds 2 and 3 also the
+nicknames of the earlier changes, to push them towards other clauses; in rounds 4 and 5 the
+request stressed changes that need something specific to manifest: a multi-step sequence, an
+unusual input or configuration, state left behind by an earlier call, two cooperating sites),
+and were asked for a change that compiles, passes the repository's test suite, breaks the
+property only for something specific, with a demonstration. Each change was then **confirmed
 independently** in the scratch worktree (`seeded/confirm.sh`: applied on the pristine tree,
-built, `make check` = 174/174 with the change, demonstration output different on the two
-trees) and kept as `seeded/<property>-<name>/` (patch.diff, the demonstration, the author's
-README, confirm.log, detect.json, meta.json). The checks were run against each
-(`seeded/run_against.py`: `git apply`, `./check <ID>`, `git checkout -- .`; first round on
-`/repo` itself, second round on a scratch worktree of `/repo` through `VERIF_REPO` because
-the thorough tiers were running against `/repo` at the time). **%d changes, %d detected by
-the quick tier; %d of them were missed at first and led to a strengthening** (last column).
-The worktrees are removed; nothing of this was ever committed to `/repo`.
+built, `make -k check` = 174/174 with the change - one test, `test-gather-topology.sh`,
+compares live memory counters and is flaky on the shared machine; where it failed it was
+re-run alone with the change applied - demonstration output different on the two trees) and
+kept as `seeded/<property>-<name>/` (patch.diff, the demonstration, the author's README,
+confirm.log, detect.json, meta.json). The checks were run against each
+(`seeded/run_against.py`: `git apply`, `./check <ID>`, `git checkout -- .`) on scratch
+worktrees of `/repo` through `VERIF_REPO`, with a scratch copy of `/verif`, so that `/repo`
+itself never held a seeded change while other checks were being built from it. A few agents
+returned a change that an earlier round already had (same hunk): those are kept once.
+**%d changes, %d detected by the quick tier; %d of them were missed at first and led to a
+strengthening, %d more were caught because the check had been strengthened before it was first
+run against them** (last column). Two changes are reported by the check of a neighbouring
+property, as noted. The worktrees are removed; nothing of this was ever committed to `/repo`.
 
 | change | files | violation keys reported (first two) | strengthening it caused |
 |---|---|---|---|
-''' % (len(rows), ndet, sum(1 for r in rows if r[3]))
+''' % (len(rows), ndet, sum(1 for r in rows if r[3].startswith('missed at first')), sum(1 for r in rows if r[3].startswith('strengthened before')))
 for r in rows: sec9 += '| %s | %s | %s | %s |\n' % tuple(cell(x) for x in r)
 sec9 += '''
 **9.2 The repaired defects are detection demonstrations too**: each `fix:` commit's parent
